@@ -233,3 +233,44 @@ M('lsb-open-unmasked-bit', ['C18'], (RT, "        c = await self.output(a + ((1<
 B('mul-guard-demorgan', (RT, "        if f and not (a_integral or b_integral) and z != f:\n            c = self.trunc(stype(c), f=f - z)", "        if f and not a_integral and not b_integral and z != f:\n            c = self.trunc(stype(c), f=f - z)"))
 B('sgn-mask-reordered', (RT, "        c = await self.output(a_rmodl + (r_divl << l))\n        c = c.value % (1<<l)\n\n        if not EQ:", "        c = await self.output((r_divl << l) + a_rmodl)\n        c = c.value % (1<<l)\n\n        if not EQ:"))
 B('in_prod-flag-swapped', (RT, "            await self.returnType((stype, x_integral and y_integral))\n\n        if x is y:", "            await self.returnType((stype, y_integral and x_integral))\n\n        if x is y:"))
+
+# ---------------------------------------------------------------- CF / PF / G1 / OP / SG
+FF = 'finfields'
+ST = 'sectypes'
+M('setup-threshold-le-half', ['C39'], (RT, "    assert 2*options.threshold < m, f'threshold", "    assert options.threshold <= m//2, f'threshold"))
+M('setup-threshold-le', ['C39'], (RT, "    assert 2*options.threshold < m, f'threshold", "    assert 2*options.threshold <= m, f'threshold"))
+M('setup-no-check', ['C39'], (RT, "    assert 2*options.threshold < m, f'threshold {options.threshold} too large for {m} parties'\n", ""))
+M('lift-degree-m', ['C39', 'C26'], (ST, "        e = math.ceil(math.log(m+1, q))  # ensure q**e > m with e>=2", "        e = max(2, math.ceil(math.log(m, q)))  # ensure q**e > m with e>=2"))
+M('lift-cond-le', ['C39', 'C26'], (ST, "    if t == 0 or m < q:  # TODO: cover case m=q using MDS codes", "    if t == 0 or m <= q:  # TODO: cover case m=q using MDS codes"))
+M('lift-no-outconv', ['C39'], (ST, "        secfld._output_conversion = out_conv\n", ""))
+M('pfield-accept-short', ['C26'], (ST, "    elif p.bit_length() <= l + f + k + 1:", "    elif p.bit_length() < l + f + k + 1:"))
+M('pfield-request-short', ['C26'], (ST, "        p = finfields.find_prime_root(l + f + k + 2, n=n)", "        p = finfields.find_prime_root(l + f + k + 1, n=n)"))
+M('prime-step-2n', ['C26'], (FF, "            p += 4*n", "            p += 2*n"))
+M('prime-blum-test', ['C26'], (FF, "            while p%4 != 3:", "            while p%4 != 1:"))
+M('prf-memo', ['C17'], (TH, "            dk = shake_128(self.key + s).digest(n_ * l)", "            if getattr(self, '_last', None) != s:\n                self._last, self._dk = s, shake_128(self.key + s).digest(n_ * l)\n            dk = self._dk"))
+M('prf-no-mod', ['C17'], (TH, "            iterable = (from_bytes(dk[i:i + l], byteorder) % bound for i in range(0, n_ * l, l))", "            iterable = (from_bytes(dk[i:i + l], byteorder) >> 1 for i in range(0, n_ * l, l))"))
+M('prf-float-pow2', ['C17'], (TH, "        if bound & (bound - 1):  # no power of 2", "        if not math.log2(bound).is_integer():  # no power of 2"), (TH, "from math import prod\n", "from math import prod\nimport math\n"))
+M('prf-entropy', ['C17'], (TH, "            dk = shake_128(self.key + s).digest(n_ * l)", "            dk = shake_128(self.key + s + secrets.token_bytes(1)).digest(n_ * l)"))
+M('prf-count', ['C17'], (TH, "        n_ = 1 if n is None else n", "        n_ = n or 1"))
+M('secgrp-transfer-subset', ['C28'], ('secgroups', "    c = await runtime.transfer(c_i)\n", "    c = await runtime.transfer(c_i, senders=range(runtime.threshold + 1))\n"))
+M('secgrp-nopc', ['C28', 'C08'], ('secgroups', "@asyncoro.mpc_coro\nasync def repeat_public_base_secret_output(a, x, secgrp):", "@asyncoro.mpc_coro_no_pc\nasync def repeat_public_base_secret_output(a, x, secgrp):"))
+M('secgrp-range-m', ['C28'], ('secgroups', "    lambda_i = _recombination_vector(field, range(1, m+1), 0)[runtime.pid]\n    x_i = await runtime.gather(x)\n    e_i = [int", "    lambda_i = _recombination_vector(field, range(m), 0)[runtime.pid]\n    x_i = await runtime.gather(x)\n    e_i = [int"))
+M('gfpx-rsub-swapped', ['C20', 'C23'], ('gfpx', "        return cls(cls._sub(other, self.value), check=False)", "        return cls(cls._sub(self.value, other), check=False)"))
+M('ff-rsub-unswapped', ['C20'], (FF, "            return type(self)(other - self.value)\n\n        return NotImplemented\n\n    def __isub__", "            return type(self)(self.value - other)\n\n        return NotImplemented\n\n    def __isub__"))
+M('ff-ilshift-unreduced', ['C20'], (FF, "        self.value <<= other\n        self.value %= self.modulus\n        return self", "        self.value <<= other\n        return self"))
+M('ffa-irshift-unreduced', ['C20'], (FF, "        self.value *= self._reciprocal(1 << other)\n        self.value %= self.field.modulus\n        return self", "        self.value *= self._reciprocal(1 << other)\n        return self"))
+M('pfe-init-noreduce', ['C20'], (FF, "        value = value.__mod__(self.modulus)\n        super().__init__(value)", "        super().__init__(value)"))
+M('gfpx-gt-unswapped', ['C23', 'C20'], ('gfpx', '        """Strictly greater-than comparison."""\n        other = self._coerce(other)\n        if other is NotImplemented:\n            return NotImplemented\n\n        return self._lt(other, self.value)', '        """Strictly greater-than comparison."""\n        other = self._coerce(other)\n        if other is NotImplemented:\n            return NotImplemented\n\n        return self._lt(self.value, other)'))
+M('bytes-width-reader', ['C22'], (FF, "        return [from_bytes(data[i:i+r], 'little') for i in range(0, len(data), r)]", "        return [from_bytes(data[i:i+r], 'big') for i in range(0, len(data), r)]"))
+M('bytelen-short', ['C22'], (FF, "    GFq.byte_length = (GFq.order.bit_length() + 7) >> 3", "    GFq.byte_length = (GFq.order.bit_length() + 6) >> 3"))
+M('pgf-lru', ['C22'], (FF, "@functools.cache\ndef pGF(p, n, w):", "@functools.lru_cache\ndef pGF(p, n, w):"))
+M('reduce-args-order', ['C22'], (FF, "        return (PrimeFieldElement.createGF, (self.modulus, self.nth, self.root),", "        return (PrimeFieldElement.createGF, (self.modulus, self.root, self.nth),"))
+M('signed-threshold', ['C22'], (FF, "        if v > self.modulus >> 1:\n            v -= self.modulus", "        if v >= self.modulus >> 2:\n            v -= self.modulus"))
+M('binpoly-drop-override', ['C23'], ('gfpx', "    _sub = _add\n", "    _sub = Polynomial._sub\n"))
+M('revert-fix-np_trunc', ['C37', 'C18'], (RT, "            if issubclass(sftype, self.SecureFixedPointArray):\n                l += f", "            if issubclass(sftype, self.SecureFixedPoint):\n                l += f"))
+M('revert-fix-np_pow-integral-kw', ['C37'], (RT, "            if b.frac_length:\n                r_1 = type(b)(shape=(2, b.size), integral=True)\n            else:\n                r_1 = type(b)(shape=(2, b.size))", "            r_1 = type(b)(shape=(2, b.size), integral=True)"))
+M('np_iszero-or', ['C37', 'C11'], (RT, "        field_relative_size = field.order.bit_length() // self.options.sec_param\n        if field_relative_size == 0 and self.options.no_prss:\n            threshold = self.threshold  # will suffice due to reshare below\n        else:\n            threshold = 2 * self.threshold\n\n        n = a.size",
+                                  "        field_relative_size = field.order.bit_length() // self.options.sec_param\n        if field_relative_size == 0 or self.options.no_prss:\n            threshold = self.threshold  # will suffice due to reshare below\n        else:\n            threshold = 2 * self.threshold\n\n        n = a.size"))
+M('np_sgn-mask-short', ['C37', 'C18'], (RT, "        r_divl = self._np_randoms(Zp, n, 1<<k)\n        r_bits = (await r_bits).value", "        r_divl = self._np_randoms(Zp, n, 1<<(k-8))\n        r_bits = (await r_bits).value"))
+M('np_randoms-divisor', ['C37', 'C02'], (RT, "            d = t+1 if self.options.no_prss else math.comb(m, t)\n            bound = 1 << max(0, (bound // d).bit_length() - 1)  # NB: rounded power of 2\n        if self.options.no_prss:\n            uci = self._program_counter[0] % m\n            senders = tuple((uci + i) % m for i in range(t+1))  # TODO: sort out load balancing\n            if self.pid in senders:\n                x = field.array(",
+                                        "            d = t+1 if self.options.no_prss else 1\n            bound = 1 << max(0, (bound // d).bit_length() - 1)  # NB: rounded power of 2\n        if self.options.no_prss:\n            uci = self._program_counter[0] % m\n            senders = tuple((uci + i) % m for i in range(t+1))  # TODO: sort out load balancing\n            if self.pid in senders:\n                x = field.array("))
